@@ -566,6 +566,9 @@ class Context:
             self.solver.set("random_seed", seed & 0x7FFFFFFF)
         self.query_timeout_ms = query_timeout_ms
         self.fast_ms = 3000
+        self.crosscheck_every = 0
+        self.crosscheck_max = 0
+        self.crosscheck_ms = 20000
         self._last_model = None
         self.max_decisions = max_decisions
         self.concretize_cap = concretize_cap
@@ -817,6 +820,9 @@ class Context:
         finally:
             if TRACE:
                 print("[prove %.2fs] %s" % (time.perf_counter() - _t0, label), flush=True)
+        if not bad and self.crosscheck_every and self.stats["obligations"] % self.crosscheck_every == 0 \
+                and self.stats.get("cvc5_checked", 0) < self.crosscheck_max:
+            self._crosscheck(t, label)
         if bad:
             m = self._last_model
             self._violation(label, key, detail, m)
@@ -825,6 +831,37 @@ class Context:
             return False
         self.stats["discharged"] += 1
         return True
+
+    def _crosscheck(self, t, label):
+        """re-decide a discharged obligation with cvc5 (second solver); disagreement => inconclusive"""
+        import subprocess
+        import tempfile
+        s2 = z3.Solver()
+        s2.add(self.solver.assertions())
+        s2.add(z3.Not(t))
+        text = "(set-logic ALL)\n" + s2.to_smt2()
+        with tempfile.NamedTemporaryFile("w", suffix=".smt2", delete=False) as f:
+            f.write(text)
+            path = f.name
+        try:
+            r = subprocess.run(["cvc5", "--tlimit=%d" % self.crosscheck_ms, path], capture_output=True, text=True,
+                               timeout=self.crosscheck_ms / 1000 + 10)
+            out = (r.stdout + r.stderr).strip()
+        except Exception as e:        # noqa: BLE001
+            out = "error: %s" % e
+        finally:
+            try:
+                os.remove(path)
+            except OSError:
+                pass
+        self.stats["cvc5_checked"] = self.stats.get("cvc5_checked", 0) + 1
+        first = out.splitlines()[0] if out else ""
+        if first == "unsat" and "(error" not in out:
+            self.stats["cvc5_agree"] = self.stats.get("cvc5_agree", 0) + 1
+        elif first == "sat":
+            raise Inconclusive("cvc5 disagrees with z3 on obligation %r (cvc5: sat)" % label)
+        else:
+            self.stats["cvc5_unknown"] = self.stats.get("cvc5_unknown", 0) + 1
 
     def current_inputs(self, model=None):
         if model is None:
